@@ -3,7 +3,7 @@
 # Confirms independently: patch applies to a clean checkout, project builds, Go tests pass,
 # demo.sh passes on the original binary and fails on the mutant binary.
 set -e
-ID=$1; K=$2; SRC=/tmp/mut/out_$ID/$K
+ID=$1; K=$2; SRC=${3:-/tmp/mut/out_$ID/$K}; NAME=${4:-$K}
 BASE=$(git -C /tmp/mut/wt_$ID rev-parse HEAD)
 ROOT=$(mktemp -d /tmp/sv_XXXXXX)
 trap 'git -C /repo worktree remove --force "$ROOT/o" >/dev/null 2>&1; git -C /repo worktree remove --force "$ROOT/m" >/dev/null 2>&1; rm -rf "$ROOT"' EXIT
@@ -18,9 +18,9 @@ FAILS=$(cd "$ROOT/m" && go test ./... -count=1 -vet=off 2>&1 | grep -c '^FAIL\|^
 cd "$SRC"
 if sh ./demo.sh "$ROOT/yq_o" >/dev/null 2>&1; then DO=pass; else DO=FAIL; fi
 if sh ./demo.sh "$ROOT/yq_m" >/dev/null 2>&1; then DM=pass; else DM=FAIL; fi
-echo "$ID-$K base=$BASE tests_ok_pkgs=$TESTS test_failures=$FAILS demo_on_original=$DO demo_on_mutant=$DM"
+echo "$ID-$NAME base=$BASE tests_ok_pkgs=$TESTS test_failures=$FAILS demo_on_original=$DO demo_on_mutant=$DM"
 if [ "$FAILS" = "0" ] && [ "$DO" = "pass" ] && [ "$DM" = "FAIL" ]; then
-  D=/verif/seeded/$ID-$K; mkdir -p $D; cp "$SRC/patch.diff" "$SRC/demo.sh" $D/
+  D=/verif/seeded/$ID-$NAME; mkdir -p $D; cp "$SRC/patch.diff" "$SRC/demo.sh" $D/
   [ -f "$SRC/meta.json" ] && cp "$SRC/meta.json" $D/meta_author.json
   for f in "$SRC"/*; do case "$f" in *patch.diff|*demo.sh|*meta.json) ;; *) cp -r "$f" $D/ ;; esac; done
   python3 - "$D" "$ID" "$BASE" <<'PY'
